@@ -869,7 +869,34 @@ def key_parts(f, e, depth=0):
                 if isinstance(a, (ast.Constant, ast.Name)) else [expr(a)]
             parts.append(('s', t))
         return merge(parts)
+    if isinstance(e, ast.Call) and isinstance(e.func, ast.Attribute) and \
+            e.func.attr in _CASE_METHODS and not e.args and not e.keywords:
+        # a case normalisation of the whole key distributes over its parts:
+        # ('rm.%s' % x).lower() == 'rm.' + x.lower(); key.lower() of a local
+        # holding the un-normalised key is decided the same way
+        how = e.func.attr
+        return merge([_cased(k, v, how)
+                      for k, v in key_parts(f, e.func.value, depth + 1)])
     return [expr(e)]
+
+
+_CASE_METHODS = ('lower', 'upper', 'casefold')
+
+
+def _cased(kind, value, how):
+    """one part of a key under str.<how>(): texts are folded, expressions are
+    wrapped in `.<how>()` (once: the methods are idempotent)"""
+    if kind == 's':
+        return ('s', getattr(value, how)())
+    if value.endswith('.%s()' % how):
+        return (kind, value)
+    try:
+        inner = ast.parse(value, mode='eval').body
+    except SyntaxError:
+        raise Unrecognised('`%s`' % value[:50])
+    return (kind, unparse(ast.Call(
+        func=ast.Attribute(value=inner, attr=how, ctx=ast.Load()),
+        args=[], keywords=[])))
 
 
 def _parts_text(parts):
@@ -896,7 +923,7 @@ def r18_4(prog, rep, table, rid='R18.4', kid='R18.11'):
         except Unrecognised:
             return False
         return bool(parts) and parts[0][0] == 's' and \
-            parts[0][1].startswith('rm.')
+            parts[0][1].lower().startswith('rm.')
 
     puts, gets = [], []
     for c in calls_in(f.node):
@@ -5094,6 +5121,15 @@ MUTATIONS = [
         (_B, _REG_PUT, "            key = 'rm.' + self.name.upper()\n            reg.put(key, rm_info.as_dict())\n")]),
     dict(name='R18.11 registry written under rm.info.<name>', rules=('R18.11',), edits=[
         (_B, _REG_PUT, "            reg.put('rm.info.%s' % self.name.lower(), rm_info.as_dict())\n")]),
+    dict(name='R18.11 seed C18-j4: key cached in a local, read lower-cases it, write does not', rules=('R18.11',), edits=[
+        (_B, _REG_GET, "        reg_key = 'rm.%s' % self.name\n        rm_info = reg.get(reg_key.lower())\n"),
+        (_B, _REG_PUT, "            reg.put(reg_key, rm_info.as_dict())\n")]),
+    dict(name='R18.11 key cached in a local, write lower-cases it, read does not', rules=('R18.11',), edits=[
+        (_B, _REG_GET, "        reg_key = f'rm.{self.name}'\n        rm_info = reg.get(reg_key)\n"),
+        (_B, _REG_PUT, "            reg.put(reg_key.lower(), rm_info.as_dict())\n")]),
+    dict(name='R18.11 whole key lower-cased at the read, upper-cased at the write', rules=('R18.11',), edits=[
+        (_B, _REG_GET, "        rm_info = reg.get(('rm.%s' % self.name).lower())\n"),
+        (_B, _REG_PUT, "            reg.put(('rm.%s' % self.name).upper(), rm_info.as_dict())\n")]),
     dict(name='R18.12 seed C18-g6: LSF parses the host file without the SMT multiplier', rules=('R18.12',), edits=[
         (_LSF, _LSF_PARSE, "        nodes = self._parse_nodefile(hostfile)\n")]),
     dict(name='R18.12 LSF passes smt=1', rules=('R18.12',), edits=[
@@ -5399,6 +5435,16 @@ SILENT = [
     dict(name='lower-cased name in a local used by both keys', edits=[
         (_B, _REG_GET, "        lname   = self.name.lower()\n        rm_info = reg.get('rm.%s' % lname)\n"),
         (_B, _REG_PUT, "            reg.put(f'rm.{lname}', rm_info.as_dict())\n")]),
+    dict(name='un-normalised key cached in a local, lower-cased at both uses', edits=[
+        (_B, _REG_GET, "        reg_key = 'rm.%s' % self.name\n        rm_info = reg.get(reg_key.lower())\n"),
+        (_B, _REG_PUT, "            reg.put(reg_key.lower(), rm_info.as_dict())\n")]),
+    dict(name='whole key lower-cased at the read, name lower-cased at the write', edits=[
+        (_B, _REG_GET, "        rm_info = reg.get(('rm.%s' % self.name).lower())\n")]),
+    dict(name='key lower-cased once into a second local used by both', edits=[
+        (_B, _REG_GET, "        raw_key = 'rm.' + self.name\n        reg_key = raw_key.lower()\n        rm_info = reg.get(reg_key)\n"),
+        (_B, _REG_PUT, "            reg.put(reg_key, rm_info.as_dict())\n")]),
+    dict(name='key lower-cased twice on the read side', edits=[
+        (_B, _REG_GET, "        reg_key = ('rm.%s' % self.name.lower()).lower()\n        rm_info = reg.get(reg_key)\n")]),
     dict(name='class name spelled out at the write', edits=[
         (_B, _REG_PUT, "            reg.put('rm.%s' % type(self).__name__.lower(), rm_info.as_dict())\n")]),
     dict(name='LSF passes cpn=0 and smt positionally', edits=[
